@@ -12,17 +12,18 @@
  * both positions are accepted, the obligation text says which one was required).
  *
  * Input classes (disjoint assumptions; a known defect of one class cannot hide a regression in another):
- *   plain    no quote character, no backslash
- *   quoted   contains a quote character or a backslash */
+ *   plain      no quote character, no backslash
+ *   quoted     contains a quote character or a backslash, but not the pattern of the third class
+ *   escquote   (count, get_word) a backslash stands directly in front of a quote character
+ *   lonequote  (get_pword) the indexed whitespace-separated word is one quote character and ends the input */
 
 /*@unit
 name: words.count.plain
 define: U_COUNT, V_CLASS=0
 src: strings.c
 tier: B
-bound: input length <= 5 (quick tier) / <= 7 (thorough tier) over {a,b,space,:,',",\}; inputs without quote characters and backslashes; loops unwound 8 / 10
-unwind: 8
-unwind_thorough: 10
+bound: input length <= 5 (quick tier) / <= 7 (thorough tier) over {a,b,space,:,',",\}; inputs without quote characters and backslashes; every index 1..num_words; loops unwound 10
+unwind: 10
 backend: cadical
 timeout: 600
 timeout_thorough: 3000
@@ -33,9 +34,20 @@ name: words.count.quoted
 define: U_COUNT, V_CLASS=1
 src: strings.c
 tier: B
-bound: input length <= 5 (quick tier) / <= 7 (thorough tier) over {a,b,space,:,',",\}; inputs with a quote character or a backslash; loops unwound 8 / 10
-unwind: 8
-unwind_thorough: 10
+bound: input length <= 5 (quick tier) / <= 7 (thorough tier) over {a,b,space,:,',",\}; inputs with a quote character or a backslash, no backslash directly in front of a quote character; every index 1..num_words; loops unwound 10
+unwind: 10
+backend: cadical
+timeout: 600
+timeout_thorough: 3000
+funcs: spiftool_num_words
+*/
+/*@unit
+name: words.count.escquote
+define: U_COUNT, V_CLASS=2
+src: strings.c
+tier: B
+bound: input length <= 5 (quick tier) / <= 7 (thorough tier) over {a,b,space,:,',",\}; inputs with a backslash directly in front of a quote character; every index 1..num_words; loops unwound 10
+unwind: 10
 backend: cadical
 timeout: 600
 timeout_thorough: 3000
@@ -46,9 +58,8 @@ name: words.get_word.plain
 define: U_GETWORD, V_CLASS=0
 src: strings.c
 tier: B
-bound: input length <= 5 (quick tier) / <= 7 (thorough tier) over {a,b,space,:,',",\}; inputs without quote characters and backslashes; every index 1..num_words; loops unwound 8 / 10
-unwind: 8
-unwind_thorough: 10
+bound: input length <= 5 (quick tier) / <= 7 (thorough tier) over {a,b,space,:,',",\}; inputs without quote characters and backslashes; every index 1..num_words; loops unwound 10
+unwind: 10
 backend: cadical
 timeout: 600
 timeout_thorough: 3000
@@ -59,9 +70,20 @@ name: words.get_word.quoted
 define: U_GETWORD, V_CLASS=1
 src: strings.c
 tier: B
-bound: input length <= 5 (quick tier) / <= 7 (thorough tier) over {a,b,space,:,',",\}; inputs with a quote character or a backslash; every index 1..num_words; loops unwound 8 / 10
-unwind: 8
-unwind_thorough: 10
+bound: input length <= 5 (quick tier) / <= 7 (thorough tier) over {a,b,space,:,',",\}; inputs with a quote character or a backslash, no backslash directly in front of a quote character; every index 1..num_words; loops unwound 10
+unwind: 10
+backend: cadical
+timeout: 600
+timeout_thorough: 3000
+funcs: spiftool_get_word, spiftool_num_words
+*/
+/*@unit
+name: words.get_word.escquote
+define: U_GETWORD, V_CLASS=2
+src: strings.c
+tier: B
+bound: input length <= 5 (quick tier) / <= 7 (thorough tier) over {a,b,space,:,',",\}; inputs with a backslash directly in front of a quote character; every index 1..num_words; loops unwound 10
+unwind: 10
 backend: cadical
 timeout: 600
 timeout_thorough: 3000
@@ -72,9 +94,8 @@ name: words.get_pword.plain
 define: U_GETPWORD, V_CLASS=0
 src: strings.c
 tier: B
-bound: input length <= 5 (quick tier) / <= 7 (thorough tier) over {a,b,space,:,',",\}; inputs without quote characters and backslashes; every index 1..num_words; loops unwound 8 / 10
-unwind: 8
-unwind_thorough: 10
+bound: input length <= 5 (quick tier) / <= 7 (thorough tier) over {a,b,space,:,',",\}; inputs without quote characters and backslashes; every index 1..num_words; loops unwound 10
+unwind: 10
 backend: cadical
 timeout: 600
 timeout_thorough: 3000
@@ -85,9 +106,20 @@ name: words.get_pword.quoted
 define: U_GETPWORD, V_CLASS=1
 src: strings.c
 tier: B
-bound: input length <= 5 (quick tier) / <= 7 (thorough tier) over {a,b,space,:,',",\}; inputs with a quote character or a backslash; every index 1..num_words; loops unwound 8 / 10
-unwind: 8
-unwind_thorough: 10
+bound: input length <= 5 (quick tier) / <= 7 (thorough tier) over {a,b,space,:,',",\}; inputs with a quote character or a backslash, no word that is a lone quote character at the end of the input; every index 1..num_words; loops unwound 10
+unwind: 10
+backend: cadical
+timeout: 600
+timeout_thorough: 3000
+funcs: spiftool_get_pword, spiftool_num_words
+*/
+/*@unit
+name: words.get_pword.lonequote
+define: U_GETPWORD, V_CLASS=2
+src: strings.c
+tier: B
+bound: input length <= 5 (quick tier) / <= 7 (thorough tier) over {a,b,space,:,',",\}; the indexed whitespace-separated word is a single quote character at the end of the input; every index 1..num_words; loops unwound 10
+unwind: 10
 backend: cadical
 timeout: 600
 timeout_thorough: 3000
@@ -106,8 +138,12 @@ funcs: spiftool_get_pword, spiftool_num_words
 
 #if V_CLASS == 0
 # define CLS "[plain]"
-#else
+#elif V_CLASS == 1
 # define CLS "[quotes/backslash]"
+#elif defined(U_GETPWORD)
+# define CLS "[lone trailing quote]"
+#else
+# define CLS "[backslash-quote]"
 #endif
 
 unsigned long w_index;
@@ -116,15 +152,18 @@ void harness(void)
 {
     unsigned n, i;
     char *in = vr_input(&n);
-    int special = 0;
+    int special = 0, escq = 0;
     unsigned long nw, idx;
     unsigned rn;
 
     for (i = 0; i < n; i++) {
         if (in[i] == '\'' || in[i] == '"' || in[i] == '\\') special = 1;
+        if (in[i] == '\\' && (in[i + 1] == '\'' || in[i + 1] == '"')) escq = 1;
     }
 #if V_CLASS == 0
     __CPROVER_assume(!special);
+#elif !defined(U_GETPWORD)
+    __CPROVER_assume(special && (V_CLASS == 2) == (escq != 0));
 #else
     __CPROVER_assume(special);
 #endif
@@ -156,18 +195,23 @@ void harness(void)
 #endif
 #ifdef U_GETPWORD
     {
-        spif_charptr_t p = spiftool_get_pword(idx, (spif_charptr_t) in);
+        spif_charptr_t p;
         int off = vr_pword(in, (unsigned) idx);
-        __CPROVER_assert(p != NULL, "get_pword " CLS ": a pointer is returned for every index 1..num_words");
-        if (p != NULL) {
-            __CPROVER_assert(off >= 0, "get_pword " CLS ": there is a whitespace-separated word with that index");
-            if (off >= 0) {
-                if (in[off] == '\'' || in[off] == '"') {
-                    __CPROVER_assert((char *) p == in + off + 1 || (char *) p == in + off,
-                                     "get_pword " CLS ": points at (or just behind the opening quote of) the i-th whitespace-separated word");
-                } else {
-                    __CPROVER_assert((char *) p == in + off, "get_pword " CLS ": points at the i-th whitespace-separated word");
-                }
+        int lone = (off >= 0 && (in[off] == '\'' || in[off] == '"') && in[off + 1] == 0);
+#if V_CLASS == 1
+        __CPROVER_assume(!lone);
+#elif V_CLASS == 2
+        __CPROVER_assume(lone);
+#endif
+        p = spiftool_get_pword(idx, (spif_charptr_t) in);
+        /* num_words counts quote-delimited words, so it may exceed the number of whitespace-separated words */
+        __CPROVER_assert((p != NULL) == (off >= 0), "get_pword " CLS ": a pointer is returned iff there is an i-th whitespace-separated word");
+        if (p != NULL && off >= 0) {
+            if (in[off] == '\'' || in[off] == '"') {
+                __CPROVER_assert((char *) p == in + off + 1 || (char *) p == in + off,
+                                 "get_pword " CLS ": points at (or just behind the opening quote of) the i-th whitespace-separated word");
+            } else {
+                __CPROVER_assert((char *) p == in + off, "get_pword " CLS ": points at the i-th whitespace-separated word");
             }
         }
     }
